@@ -2,6 +2,7 @@
 // splices, re-signs and misroutes them, verifiers judge. Monitors for C01, C02, C03, C05, C06,
 // C08, C09, C12 (and C14 through lib_verify/lib_generate) run on every event.
 #include "world.hpp"
+#include <openssl/err.h>
 
 static const char *EC_CRV[] = {"P-256", "P-384", "P-521", "secp256k1"};
 static const char *OKP_CRV[] = {"Ed25519", "Ed448"};
@@ -54,13 +55,13 @@ static Step gen_owner(Rng &r, const std::string &bias, int force_kind = -1)
 		if (weak_bias)
 			size = (int)r.range(0, N_RSA_POOL_BITS - 1);
 		else
-			size = (int)r.pick(std::vector<int>{4, 4, 4, 4, 5, 6, 1, 3}); // mostly 2048
+			size = (int)r.pick(std::vector<int>{4, 4, 4, 4, 5, 6, 1, 3, 11, 12, 13}); // mostly 2048; 11-13: moduli of 2052, 2050, 3076 bits (not a multiple of 8)
 		s.set("idx", r.range(0, 1));
 		break;
 	case 2:
 		// P-521 more often where signatures are the subject: its 66-octet coordinates make short r/s
 		// values (sign-side padding paths) two hundred times more frequent than on the other curves
-		size = (bias == "C05" || bias == "C12") ? (int)r.pick(std::vector<int>{0, 1, 2, 2, 2, 3}) : (int)r.range(0, 3);
+		size = (bias == "C05" || bias == "C12" || bias == "C06" || bias == "C01") ? (int)r.pick(std::vector<int>{0, 1, 2, 2, 2, 3}) : (int)r.range(0, 3);
 		break;
 	default:
 		size = (int)r.range(0, 1);
@@ -112,6 +113,8 @@ static Step gen_owner(Rng &r, const std::string &bias, int force_kind = -1)
 static void world_gen(Rng &r, Plan &p, Tier tier, uint64_t index)
 {
 	std::string bias = p.property;
+	if (bias == "C10")
+		bias = "C05"; // token shape over every key type, size and algorithm: fault-free issuing with signature bursts
 	if (bias == "C14")
 		bias = r.pick(std::vector<std::string>{"C01", "C02", "C03", "C05", "C06", "C09"});
 	p.cfg["bias"] = Val(bias);
@@ -130,7 +133,7 @@ static void world_gen(Rng &r, Plan &p, Tier tier, uint64_t index)
 	for (int i = 0; i < n_owner; i++) {
 		Step o = gen_owner(r, bias, i == 1 ? first_kind : -1);
 		if (tier == THOROUGH && o.I("kind") == 1 && r.chance(1, 3))
-			o.set("size", r.range(4, 10)); // thorough tier: the unusual modulus sizes of the pool more often
+			o.set("size", r.range(4, 13)); // thorough tier: the unusual modulus sizes of the pool more often
 		if (bias == "C09" && i == 0) {
 			// stratified: run i uses oct length i mod 161 for the first owner (or a weak RSA/EC cell)
 			int cell = (int)(index % 200);
@@ -223,7 +226,8 @@ static void world_gen(Rng &r, Plan &p, Tier tier, uint64_t index)
 	int issued = 0;
 	for (int e = 0; e < n_ev; e++) {
 		int roll = (int)r.below(100);
-		if (issued == 0 || roll < (bias == "C05" || bias == "C12" ? 40 : 22)) {
+		// (the larger issuing share of C05/C12 comes out of the delivery range at the top, not out of the rare events below)
+		if (issued == 0 || roll < 22 || ((bias == "C05" || bias == "C12") && roll >= 82)) {
 			if (r.chance(1, 2)) {
 				Step s("ISSUE");
 				s.set("issuer", (int64_t)r.below((uint64_t)n_iss));
@@ -259,6 +263,13 @@ static void world_gen(Rng &r, Plan &p, Tier tier, uint64_t index)
 			s.set("explicit", (int64_t)r.pick(std::vector<int>{0, 0, -1, -1, -1, -2, -3}));
 			s.set("exsel", (int64_t)r.below(64));
 			s.set("clear", r.chance(1, 6) ? 1 : 0);
+			if (r.chance(1, 4)) {
+				// a call the table refuses (algorithm without a key) on a configured party: the configuration in
+				// force must stay exactly what it was; a quarter of them go to issuers
+				s.set("clear", 2);
+				if (r.chance(1, 3))
+					s.set("issuer", 1);
+			}
 			push(s);
 		} else if (roll < 31 && e > 2) {
 			// a new key owner joins in mid-run: its keys are imported after whatever happened before
@@ -272,7 +283,34 @@ static void world_gen(Rng &r, Plan &p, Tier tier, uint64_t index)
 			Step s("ROTATE");
 			int64_t ro = (int64_t)r.below((uint64_t)n_owner);
 			s.set("owner", ro);
+			bool weaken = (bias == "C09" || bias == "C13") && r.chance(1, 2);
+			int64_t wv = (int64_t)r.below((uint64_t)n_ver), wseed = (int64_t)r.below(1 << 30), wsel = (int64_t)r.below(64);
+			auto tailored = [&]() {
+				// a token signed by owner ro's current key under the algorithm a verifier holding that key pinned, delivered to it
+				Step ri("REFISSUE");
+				ri.set("owner", ro);
+				ri.set("alg", -1);
+				ri.set("algsel", wsel);
+				ri.set("claims_seed", wseed);
+				ri.set("forv", wv);
+				ri.set("forowner", 1);
+				push(ri);
+				Step d("DELIVER");
+				d.set("token", 0);
+				d.set("latest", 1);
+				d.set("to", wv);
+				d.set("match", 1);
+				push(d);
+			};
+			if (weaken) {
+				// the new key is below the floor of the algorithms the old one was used with; the same verifier
+				// verifies a good token right before the rotation and one signed by the weak key right after it
+				s.set("weaken", r.range(1, 1000));
+				tailored();
+			}
 			push(s);
+			if (weaken)
+				tailored();
 			// late replay: a token signed with the retired key goes to a verifier that now holds the new one
 			int nrep = (int)r.range(0, 2);
 			for (int k = 0; k < nrep; k++) {
@@ -670,6 +708,11 @@ static Owner make_owner(World &w, const Step &s, uint64_t salt)
 	plain.priv = false;
 	std::string jpub = export_one(opts), jpub_plain = export_one(plain);
 	o.priv.truth = o.pub.truth = o.truth;
+	if (ERR_peek_error()) {
+		ctx.count("probe:key_import_with_entries_on_the_openssl_error_queue");
+		if (s.I("late") || salt != s.uid)
+			ctx.count("probe:key_import_in_mid_run_with_entries_on_the_openssl_error_queue");
+	}
 	bool okp = lib_load_key(ctx, jpriv, o.priv);
 	bool oku = lib_load_key(ctx, jpub, o.pub);
 	o.ok = okp && oku;
@@ -955,6 +998,30 @@ static void do_reconfig(World &w, const Step &s)
 	Ctx &ctx = w.ctx;
 	if (w.verifiers.empty() || w.owners.empty())
 		return;
+	if (s.I("issuer")) {
+		// refused probe on a builder: jwt_builder_setkey(alg, NULL)
+		if (w.issuers.empty())
+			return;
+		Party &p = w.issuers[(uint64_t)s.I("to") % w.issuers.size()];
+		if (!p.bld || ROUTES[p.route].cb != 0) {
+			ctx.logf("RECONFIG skipped (issuer uses a callback)");
+			return;
+		}
+		int E = 1 + (int)((uint64_t)s.I("exsel") % 14);
+		set_provider(p.prov);
+		int r;
+		{
+			Armed a;
+			r = jwt_builder_setkey(p.bld, (jwt_alg_t)E, NULL);
+		}
+		ctx.logf("RECONFIG issuer setkey(%s, NULL) -> %d", alg_name(E), r);
+		ctx.count("fault:refused_setkey_on_configured_party");
+		if (r == 0)
+			ctx.violation("C02", "setkey-table", strf("builder:%s:admitted:reconfig", row_class(false, JWT_ALG_NONE, E)),
+				      strf("jwt_builder_setkey(alg=%s, NULL key) on a configured builder returned 0; the documented table says refuse", alg_name(E)));
+		jwt_builder_error_clear(p.bld); // previous configuration stays in force
+		return;
+	}
 	Party &v = w.verifiers[(uint64_t)s.I("to") % w.verifiers.size()];
 	if (!v.chk || ROUTES[v.route].cb != 0) {
 		ctx.logf("RECONFIG skipped (verifier uses a callback)");
@@ -967,6 +1034,10 @@ static void do_reconfig(World &w, const Step &s)
 	const jwk_item_t *item = clear ? NULL : (form_priv ? o->priv.item : o->pub.item);
 	int key_alg = clear ? JWT_ALG_NONE : o->key_alg;
 	int E = clear ? JWT_ALG_NONE : choose_explicit(s, o);
+	if (s.I("clear") == 2) {
+		E = 1 + (int)((uint64_t)s.I("exsel") % 14); // algorithm without a key
+		ctx.count("fault:refused_setkey_on_configured_party");
+	}
 	set_provider(v.prov);
 	int r;
 	{
@@ -1029,7 +1100,20 @@ static void do_rotate(World &w, const Step &s)
 	// released in reverse order of allocation, as a stack-like teardown would
 	lib_free_key(old.pub);
 	lib_free_key(old.priv);
-	Owner fresh = make_owner(w, old.spec, s.uid + 100000);
+	Step nspec = old.spec;
+	if (s.I("weaken")) {
+		int kind = (int)nspec.I("kind");
+		int64_t wsel = s.I("weaken");
+		if (kind == 0)
+			nspec.set("size", wsel % 5 == 0 ? 31 : wsel % 5 == 1 ? 16 : wsel % 32);
+		else if (kind == 1)
+			nspec.set("size", wsel % 2 ? 1 : 3); // 1024 / 2047 bits
+		else if (kind == 2)
+			nspec.set("size", (nspec.I("size") + 1 + wsel % 3) % 4); // another curve under the same alg attribute
+		nspec.set("broken", 0);
+		ctx.count("fault:key_rotated_to_a_key_below_the_floor");
+	}
+	Owner fresh = make_owner(w, nspec, s.uid + 100000);
 	w.owners[oi] = std::move(fresh);
 	Owner &nw = w.owners[oi];
 	ctx.count("fault:key_rotation_with_old_tokens_in_flight");
@@ -1112,6 +1196,20 @@ static void do_issue_once(World &w, const Step &s, bool keep)
 	if (go.ok) {
 		bool third_empty = tp.has2 && tp.seg[2].empty();
 		bool hdr_none = tp.alg_is_string && tp.alg == "none";
+		{
+			// C10 shape: exactly three parts, each unpadded base64url (strict reading: URL alphabet only, no '=',
+			// unused bits zero) of a JSON object, a JSON object and the raw signature - for every key type, size and
+			// algorithm the world issues with (signature lengths that are and are not multiples of three)
+			std::string d0, d1, d2;
+			bool shape = tp.dots == 2 && b64url_decode_strict(tp.seg[0], d0) && b64url_decode_strict(tp.seg[1], d1) && (tp.seg[2].empty() || b64url_decode_strict(tp.seg[2], d2));
+			if (!shape)
+				ctx.violation("C10", "token-shape", strf("%s:%s", ha ? ha->name : "?", !tp.seg[2].empty() && !b64url_decode_strict(tp.seg[2], d2) ? "signature-part" : "header-or-payload-part"),
+					      strf("generated token is not three unpadded base64url parts: %s", show(go.token, 400).c_str()));
+			else if (!tp.hdr_ok || !tp.pay_ok || !json_is_object(tp.hdr) || !json_is_object(tp.pay))
+				ctx.violation("C10", "token-shape", "not-json-objects", strf("header or payload of the generated token is not a JSON object: %s", show(go.token, 400).c_str()));
+			if (ha)
+				ctx.sig(strf("C10shape|%s|%zu", ha->name, d2.size() % 3));
+		}
 		if (p.has_key) {
 			// C03: a builder that was given a key never emits an unsigned token
 			if (!tp.has2 || third_empty || hdr_none || !tp.alg_is_string)
@@ -1220,7 +1318,16 @@ static void do_refissue(World &w, const Step &s)
 	size_t oi = (uint64_t)s.I("owner") % w.owners.size();
 	int forced_alg = -1;
 	if (s.has("forv") && !w.verifiers.empty()) {
-		Party &fv = w.verifiers[(uint64_t)s.I("forv") % w.verifiers.size()];
+		size_t fvi = (uint64_t)s.I("forv") % w.verifiers.size();
+		if (s.I("forowner"))
+			for (size_t j = 0; j < w.verifiers.size(); j++) {
+				size_t c = (fvi + j) % w.verifiers.size();
+				if (w.verifiers[c].has_key && w.verifiers[c].owner == (int)oi) {
+					fvi = c;
+					break;
+				}
+			}
+		Party &fv = w.verifiers[fvi];
 		int pin = pinned_alg(fv.has_key, fv.key_alg, fv.eff_explicit);
 		if (fv.has_key && fv.owner >= 0 && pin > 0 && key_family_ok(*w.owners[(size_t)fv.owner].truth, ALGS[pin])) {
 			oi = (size_t)fv.owner;
@@ -1437,7 +1544,7 @@ static void do_deliver(World &w, const Step &s, bool garbage)
 	bool pristine = true, destroys = false, enc = false;
 	std::string faults;
 	if (!w.pool.empty())
-		src = &w.pool[(uint64_t)s.I("token") % w.pool.size()];
+		src = s.I("latest") ? &w.pool.back() : &w.pool[(uint64_t)s.I("token") % w.pool.size()];
 	if (!garbage && !src)
 		return;
 	if (!garbage && s.I("retired_of") > 0) {
@@ -1490,12 +1597,29 @@ static void do_deliver(World &w, const Step &s, bool garbage)
 			others.push_back(m.token);
 		mc.pool = &others;
 		mc.verifier_key = vk;
+		{
+			int vpin = pinned_alg(v.has_key, v.key_alg, v.eff_explicit);
+			if (vpin > JWT_ALG_NONE && vpin < JWT_ALG_INVAL)
+				mc.pin_name = ALGS[vpin].name;
+		}
 		mc.resign = [&](const std::string &alg, int signer, const std::string &si, std::string &sig) -> bool {
 			const AlgInfo *a = alg_by_name(alg);
 			Rng r(mix64(w.plan.rng, s.uid * 31 + (uint64_t)signer));
 			size_t plausible = a ? (a->fam == FAM_HS ? (size_t)a->hash_bits / 8 : a->fam == FAM_ES ? (size_t)((a->ec_bits + 7) / 8) * 2 : a->fam == FAM_ED ? 64 : 256) : 32;
 			int hb = a && a->fam == FAM_HS ? a->hash_bits : 256;
-			switch (((signer % 8) + 8) % 8) {
+			switch (((signer % 9) + 9) % 9) {
+			case 8: {
+				// the verifier's own key signing the way its family signs (RS256 for RSA, ES* of its curve for EC,
+				// EdDSA for OKP, HS256 for oct) under a header that names whatever the verifier pinned
+				if (vk) {
+					int kind = vk->kty == K_OCT ? 0 : vk->kty == K_RSA ? 1 : vk->kty == K_EC ? 2 : 3;
+					std::vector<int> nat = natural_algs(kind, vk->crv == "P-256" ? 0 : vk->crv == "P-384" ? 1 : vk->crv == "P-521" ? 2 : 3);
+					if (ref_sign(*vk, ALGS[nat[r.below(nat.size())]], si, sig))
+						return true;
+				}
+				sig = r.bytes(plausible);
+				return true;
+			}
 			case 0:
 				sig = ref_hmac(hb, "", si);
 				return true;
@@ -1545,7 +1669,7 @@ static void do_deliver(World &w, const Step &s, bool garbage)
 			faults += d.substr(0, d.find('('));
 			ctx.count("fault:" + m.op);
 			if (m.op == "resign")
-				ctx.count(strf("fault:resign_signer_%lld", (long long)(((m.I("signer") % 8) + 8) % 8)));
+				ctx.count(strf("fault:resign_signer_%lld", (long long)(((m.I("signer") % 9) + 9) % 9)));
 		}
 		pristine = false;
 	}
@@ -1555,6 +1679,16 @@ static void do_deliver(World &w, const Step &s, bool garbage)
 			c = 1;
 	if (tok.empty())
 		tok = ".";
+	if (vk && vk->kty == K_EC) {
+		// reach probe: a signature of the key's width whose two halves both have the top bit set needs the longest DER
+		// encoding the provider will ever build for this curve
+		TokenParts tp;
+		token_split(tok, tp);
+		std::string sg;
+		size_t w2 = (size_t)((vk->bits + 7) / 8);
+		if (tp.has2 && b64_decode_lenient(tp.seg[2], sg) && sg.size() == 2 * w2 && (sg[0] & 0x80) && (sg[w2] & 0x80))
+			ctx.count(strf("probe:ec_signature_with_longest_der_encoding_delivered:%s:%s", vk->crv.c_str(), prov_name(v.prov)));
+	}
 	judge_delivery(w, v, vi, tok, src, pristine, destroys, enc, faults);
 }
 
